@@ -116,7 +116,14 @@ func allowedChanges(r *Rule) map[string]bool {
 	al := map[string]bool{}
 	for _, st := range r.Then {
 		if st.Kind == "assign" {
-			al[noSpace(st.X.grl())] = true
+			t := noSpace(st.X.grl())
+			al[t] = true
+			if strings.HasPrefix(t, "F.Items[") && !strings.HasPrefix(t, "F.Items[0]") && !strings.HasPrefix(t, "F.Items[1]") {
+				// computed index (F.Items[F.U8%2].X): the element is decided at run time; either element is an addressed
+				// location for this frame oracle (the exact one is the model's business in the correspondence)
+				fld := t[strings.LastIndex(t, "."):]
+				al["F.Items[0]"+fld], al["F.Items[1]"+fld] = true, true
+			}
 		} else if st.A.Kind == "method" && (st.A.F == "AddTo" || st.A.F == "Inc") {
 			al["F.I64"] = true
 		}
@@ -527,6 +534,16 @@ func runEngVariant(prop string) runner {
 					// conversion probe: one assignment between numeric kinds, fired once
 					probeDst = pick(q, []string{"I", "I16", "I32", "I64", "F32", "F64", "U16", "U32"})
 					probeE = pick(q, []*Expr{g.floatExpr(1), eVar(g.floatVar()), g.intExpr(1), eVar(g.intVar())})
+					if q.chance(1, 3) {
+						// large magnitudes: integers above 2^53 with low bits set, stored across the signed / unsigned families
+						// (every bit must arrive: no detour through float64)
+						big := int64(1)<<uint(53+q.intn(9)) + int64(1+2*q.intn(500))
+						s.Fact.U64, s.Fact.I64, s.Fact.U, s.Fact.I = uint64(big), big-2, uint(big+4), int(big+6)
+						probeDst = pick(q, []string{"I64", "U64", "I", "U"})
+						src := pick(q, []string{"U64", "I64", "U", "I"})
+						probeE = pick(q, []*Expr{eVar(vPath("F", src)), mkBin("+", eVar(vPath("F", src)), cInt(int64(1+q.intn(3)))), mkBin("-", eVar(vPath("F", src)), cInt(int64(q.intn(3))))})
+						rep.count("conversion probe, magnitude above 2^53")
+					}
 					r.When = cBool(true)
 					r.Then = []*Stmt{assign(vPath("F", probeDst), "=", probeE), call(fn("Retract", cStr("R0")))}
 				}
@@ -567,7 +584,7 @@ func runEngVariant(prop string) runner {
 						}
 						inRange := true
 						if !dstFloat {
-							lim := map[string]int64{"I": math.MaxInt64, "I16": math.MaxInt16, "I32": math.MaxInt32, "I64": math.MaxInt64, "U16": math.MaxUint16, "U32": math.MaxUint32}[probeDst]
+							lim := map[string]int64{"I": math.MaxInt64, "I16": math.MaxInt16, "I32": math.MaxInt32, "I64": math.MaxInt64, "U16": math.MaxUint16, "U32": math.MaxUint32, "U64": math.MaxInt64, "U": math.MaxInt64}[probeDst]
 							lo := -lim - 1
 							if probeDst[0] == 'U' {
 								lo = 0
